@@ -536,7 +536,7 @@ def run(ch: Checker) -> None:
                                 if tc and tc.startswith('self.'):
                                     mode_fields.setdefault(f.cls.qual, set()).add(tc)
     n_sites = 0
-    for f in prog.all_functions('proxy', include_inlined=True):
+    for f in prog.all_functions('proxy', include_inlined='residual'):
         if not f.module.relpath.startswith(PER_CONNECTION):
             continue
         fields: Set[str] = set()
